@@ -260,6 +260,218 @@ theorem seqReplace_fill (f : List Char → List Char) (ts : List Tok) :
       rw [step]
       simpa [fill, List.append_assoc] using this
 
+/-! ### `strings.NewReplacer(…).Replace` = simultaneous substitution (no condition on the values) -/
+
+def Wordy (n : List Char) : Prop := n ≠ [] ∧ ∀ c ∈ n, isWord c = true
+
+theorem stripPrefix_name (m n rest : List Char) (hm : ∀ c ∈ m, isWord c = true) (hn : ∀ c ∈ n, isWord c = true) :
+    stripPrefix (m ++ ['}']) (n ++ '}' :: rest) = if m = n then some rest else none := by
+  have hb : isWord '}' = false := by decide
+  induction m generalizing n with
+  | nil =>
+    cases n with
+    | nil => simp [stripPrefix]
+    | cons a as =>
+      have ha : a ≠ '}' := by intro e; subst e; have := hn '}' (by simp); rw [hb] at this; cases this
+      have : ('}' == a) = false := by simpa using fun e => ha e.symm
+      simp [stripPrefix, this]
+  | cons x xs ih =>
+    have hx : x ≠ '}' := by intro e; subst e; have := hm '}' (by simp); rw [hb] at this; cases this
+    cases n with
+    | nil =>
+      have : (x == '}') = false := by simpa using hx
+      simp [stripPrefix, this]
+    | cons a as =>
+      simp only [List.cons_append, stripPrefix]
+      by_cases hxa : x = a
+      · subst hxa
+        simp only [beq_self_eq_true, ↓reduceIte, List.cons.injEq, true_and]
+        exact ih as (fun c hc => hm c (by simp [hc])) (fun c hc => hn c (by simp [hc]))
+      · have : (x == a) = false := by simpa using hxa
+        simp [this, hxa]
+
+/-- the replacer's pair table: every pair is `{name} ↦ f name` for a word `name` -/
+def PairsFor (f : List Char → List Char) (P : List (List Char × List Char)) : Prop :=
+  ∀ kv ∈ P, ∃ n, Wordy n ∧ kv = ('{' :: (n ++ ['}']), f n)
+
+theorem firstSome_lit (f : List Char → List Char) (P : List (List Char × List Char)) (hP : PairsFor f P)
+    (c : Char) (cs : List Char) (hc : c ≠ '{') :
+    firstSome (fun (kv : List Char × List Char) => (stripPrefix kv.1 (c :: cs)).map (fun rest => (kv.2, rest))) P = none := by
+  induction P with
+  | nil => rfl
+  | cons kv P ih =>
+    obtain ⟨n, _, rfl⟩ := hP kv (by simp)
+    have : ('{' == c) = false := by simpa using fun e => hc e.symm
+    simp only [firstSome, stripPrefix, this, Bool.false_eq_true, ↓reduceIte, Option.map_none]
+    exact ih (fun x hx => hP x (by simp [hx]))
+
+theorem firstSome_ph (f : List Char → List Char) (P : List (List Char × List Char)) (hP : PairsFor f P)
+    (n rest : List Char) (hn : Wordy n) (hmem : ('{' :: (n ++ ['}']), f n) ∈ P) :
+    firstSome (fun (kv : List Char × List Char) => (stripPrefix kv.1 ('{' :: (n ++ '}' :: rest))).map (fun r => (kv.2, r))) P
+      = some (f n, rest) := by
+  induction P with
+  | nil => cases hmem
+  | cons kv P ih =>
+    obtain ⟨m, hm, rfl⟩ := hP kv (by simp)
+    have hs : stripPrefix ('{' :: (m ++ ['}'])) ('{' :: (n ++ '}' :: rest)) = if m = n then some rest else none := by
+      simp only [stripPrefix, beq_self_eq_true, ↓reduceIte]
+      exact stripPrefix_name m n rest hm.2 hn.2
+    simp only [firstSome, hs]
+    by_cases hmn : m = n
+    · subst hmn; simp
+    · simp only [hmn, ↓reduceIte, Option.map_none]
+      apply ih (fun x hx => hP x (by simp [hx]))
+      simp only [List.mem_cons] at hmem
+      rcases hmem with h | h
+      · have : m = n := by
+          have h1 := congrArg Prod.fst h
+          simp only [List.cons.injEq, true_and] at h1
+          have := List.append_cancel_right h1
+          exact this.symm
+        exact absurd this hmn
+      · exact h
+
+theorem replaceAllAux_fill (f : List Char → List Char) (P : List (List Char × List Char)) (hP : PairsFor f P)
+    (ts : List Tok) :
+    toksClean ts → (∀ n ∈ phNames ts, Wordy n ∧ ('{' :: (n ++ ['}']), f n) ∈ P) →
+    ∀ fuel, fuel ≥ (renderToks ts).length + 1 → replaceAllAux P fuel (renderToks ts) = fill f ts := by
+  induction ts with
+  | nil =>
+    intro _ _ fuel hf
+    cases fuel with
+    | zero => simp [renderToks] at hf
+    | succ k => simp [renderToks, fill, replaceAllAux]
+  | cons t ts ih =>
+    intro hclean hph fuel hf
+    have hclean' : toksClean ts := fun x hx => hclean x (by simp [hx])
+    cases fuel with
+    | zero => omega
+    | succ k =>
+      cases t with
+      | lit c =>
+        have hc : c ≠ '{' := hclean (.lit c) (by simp)
+        have hph' : ∀ n ∈ phNames ts, Wordy n ∧ ('{' :: (n ++ ['}']), f n) ∈ P :=
+          fun n hn => hph n (by simpa [phNames] using hn)
+        have e : renderToks (Tok.lit c :: ts) = c :: renderToks ts := by simp [renderToks, Tok.render]
+        rw [e] at hf ⊢
+        simp only [replaceAllAux, firstSome_lit f P hP c _ hc]
+        rw [ih hclean' hph' k (by simp at hf; omega)]
+        simp [fill]
+      | ph n =>
+        obtain ⟨hn, hmem⟩ := hph n (by simp [phNames])
+        have hph' : ∀ m ∈ phNames ts, Wordy m ∧ ('{' :: (m ++ ['}']), f m) ∈ P :=
+          fun m hm => hph m (by simp [phNames] at hm ⊢; exact Or.inr hm)
+        have e : renderToks (Tok.ph n :: ts) = '{' :: (n ++ '}' :: renderToks ts) := by
+          simp [renderToks, Tok.render]
+        rw [e] at hf ⊢
+        simp only [replaceAllAux, firstSome_ph f P hP n _ hn hmem]
+        rw [ih hclean' hph' k (by simp at hf; omega)]
+        simp [fill]
+
+/-- the names the scanner cuts out are non-empty words -/
+theorem scanToks_wordy (cs : List Char) :
+    ∀ (p : Pending), (∀ acc, p = some acc → ∀ c ∈ acc, isWord c = true) →
+      ∀ n ∈ phNames (scanToks cs p), Wordy n := by
+  induction cs with
+  | nil =>
+    intro p _ n hn
+    cases p with
+    | none => simp [scanToks, flushPending, phNames] at hn
+    | some acc => simp [scanToks, flushPending, phNames] at hn
+  | cons c cs ih =>
+    intro p hp n hn
+    cases p with
+    | none =>
+      simp only [scanToks] at hn
+      by_cases h : c = '{'
+      · subst h
+        simp only [beq_self_eq_true, ↓reduceIte] at hn
+        exact ih (some []) (by intro acc e; cases e; intro c hc; cases hc) n hn
+      · have : (c == '{') = false := by simpa using h
+        simp only [this, Bool.false_eq_true, ↓reduceIte, phNames, List.filterMap_cons] at hn
+        exact ih none (by intro acc e; cases e) n hn
+    | some acc =>
+      have hacc := hp acc rfl
+      simp only [scanToks] at hn
+      by_cases hw : isWord c = true
+      · simp only [hw, ↓reduceIte] at hn
+        apply ih (some (c :: acc)) _ n hn
+        intro a e; cases e
+        intro x hx
+        simp only [List.mem_cons] at hx
+        rcases hx with hx | hx
+        · rw [hx]; exact hw
+        · exact hacc x hx
+      · simp only [hw, Bool.false_eq_true, ↓reduceIte] at hn
+        by_cases hc : (c == '}' && !acc.isEmpty) = true
+        · simp only [hc, ↓reduceIte, phNames, List.filterMap_cons, List.mem_cons] at hn
+          rcases hn with hn | hn
+          · subst hn
+            simp only [Bool.and_eq_true, Bool.not_eq_true', List.isEmpty_eq_false_iff] at hc
+            exact ⟨by simpa using hc.2, fun x hx => hacc x (List.mem_reverse.1 hx)⟩
+          · exact ih none (by intro a e; cases e) n hn
+        · simp only [hc, Bool.false_eq_true, ↓reduceIte] at hn
+          have hfl : ∀ m, m ∉ phNames (flushPending (some acc)) := by
+            intro m hm
+            simp only [flushPending, phNames, List.filterMap_cons, List.filterMap_map] at hm
+            simp at hm
+          by_cases hb : c = '{'
+          · subst hb
+            simp only [beq_self_eq_true, ↓reduceIte, phNames, List.filterMap_append, List.mem_append] at hn
+            rcases hn with hn | hn
+            · exact absurd hn (hfl n)
+            · exact ih (some []) (by intro a e; cases e; intro c hc; cases hc) n hn
+          · have : (c == '{') = false := by simpa using hb
+            simp only [this, Bool.false_eq_true, ↓reduceIte, phNames, List.filterMap_append, List.mem_append,
+              List.filterMap_cons] at hn
+            rcases hn with hn | hn
+            · exact absurd hn (hfl n)
+            · exact ih none (by intro a e; cases e) n hn
+
+theorem tokenize_wordy (p : List Char) : ∀ n ∈ phNames (tokenize p), Wordy n :=
+  scanToks_wordy p none (by intro acc e; cases e)
+
+theorem fill_no_ph (f : List Char → List Char) (ts : List Tok) (h : phNames ts = []) : fill f ts = renderToks ts := by
+  induction ts with
+  | nil => rfl
+  | cons t ts ih =>
+    cases t with
+    | lit c =>
+      have : phNames ts = [] := by simpa [phNames] using h
+      simp [fill, renderToks, Tok.render] at ih ⊢
+      exact ih this
+    | ph n => simp [phNames] at h
+
+/-- exactly one placeholder: the single `strings.Replace(…, 1)` fills it, whatever the value -/
+theorem replaceFirst_single (f : List Char → List Char) (n : List Char) (ts : List Tok) :
+    ∀ (pre : List Char), noBrace pre → toksClean ts → phNames ts = [n] →
+      replaceFirst ('{' :: (n ++ ['}'])) (f n) (pre ++ renderToks ts) = pre ++ fill f ts := by
+  induction ts with
+  | nil => intro pre _ _ h; simp [phNames] at h
+  | cons t ts ih =>
+    intro pre hpre hclean hph
+    have hclean' : toksClean ts := fun x hx => hclean x (by simp [hx])
+    cases t with
+    | lit c =>
+      have hc : c ≠ '{' := hclean (.lit c) (by simp)
+      have hpre' : noBrace (pre ++ [c]) := by
+        intro x hx
+        simp only [List.mem_append, List.mem_singleton] at hx
+        rcases hx with hx | hx
+        · exact hpre x hx
+        · rw [hx]; exact hc
+      have := ih (pre ++ [c]) hpre' hclean' (by simpa [phNames] using hph)
+      simp only [List.append_assoc, List.singleton_append] at this
+      simpa [renderToks, Tok.render, fill] using this
+    | ph m =>
+      simp only [phNames, List.filterMap_cons, List.cons.injEq] at hph
+      obtain ⟨rfl, hrest⟩ := hph
+      have e : renderToks (Tok.ph m :: ts) = ('{' :: (m ++ ['}'])) ++ renderToks ts := by simp [renderToks, Tok.render]
+      rw [e, replaceFirst_skip _ _ _ _ hpre, replaceFirst_here _ _ _ (by simp)]
+      have := fill_no_ph f ts hrest
+      simp [fill] at this ⊢
+      rw [this]
+
 end ShootVerif.Rest
 
 namespace ShootVerif.Rest
@@ -268,7 +480,7 @@ namespace ShootVerif.Rest
 
 def paramExprs (pp : List String) (p : Param) : List Expr :=
   match p.kind with
-  | .scalar | .structElsewhere _ => if pp.contains p.name then [] else [.param p.name]
+  | .scalar | .qualOther => if pp.contains p.name then [] else [.param p.name]
   | .struct fs => fs.map (fieldExpr p.name)
   | _ => []
 
@@ -332,14 +544,6 @@ theorem handleParam_closed (verb : Verb) (pp : List String) (st st' : Cooked) (p
       simp only [hc, hm, decide_true, decide_false, hp, Bool.false_eq_true, ↓reduceIte, Except.ok.injEq] at h
       subst h
       simp [paramExprs, aliasEntries, ptrEntries, fieldPtrEntries, hk, hp, hm, setAll]
-  | structElsewhere fs0 =>
-    simp only [hk] at h
-    by_cases hp : p.ptr = true <;> by_cases hm : p.name ∈ pp
-    all_goals
-      have hc : pp.contains p.name = decide (p.name ∈ pp) := by simp
-      simp only [hc, hm, decide_true, decide_false, hp, Bool.false_eq_true, ↓reduceIte, Except.ok.injEq] at h
-      subst h
-      simp [paramExprs, aliasEntries, ptrEntries, fieldPtrEntries, hk, hp, hm, setAll]
   | struct fs =>
     simp only [hk, setBody] at h
     cases hb : st.body with
@@ -352,16 +556,13 @@ theorem handleParam_closed (verb : Verb) (pp : List String) (st st' : Cooked) (p
       · simp only [hp, Bool.false_eq_true, ↓reduceIte, Except.ok.injEq] at h; subst h
         simp [paramExprs, aliasEntries, ptrEntries, fieldPtrEntries, hk, hp, setAll]
   | qualOther =>
-    simp only [hk, setBody] at h
-    cases hb : st.body with
-    | some b => simp [hb] at h
-    | none =>
-      simp only [hb] at h
-      by_cases hp : p.ptr = true
-      · simp only [hp, ↓reduceIte, Except.ok.injEq] at h; subst h
-        simp [paramExprs, aliasEntries, ptrEntries, fieldPtrEntries, hk, hp, setAll]
-      · simp only [hp, Bool.false_eq_true, ↓reduceIte, Except.ok.injEq] at h; subst h
-        simp [paramExprs, aliasEntries, ptrEntries, fieldPtrEntries, hk, hp, setAll]
+    simp only [hk] at h
+    by_cases hp : p.ptr = true <;> by_cases hm : p.name ∈ pp
+    all_goals
+      have hc : pp.contains p.name = decide (p.name ∈ pp) := by simp
+      simp only [hc, hm, decide_true, decide_false, hp, Bool.false_eq_true, ↓reduceIte, Except.ok.injEq] at h
+      subst h
+      simp [paramExprs, aliasEntries, ptrEntries, fieldPtrEntries, hk, hp, hm, setAll]
   | dict =>
     simp only [hk] at h
     by_cases hp : p.ptr = true <;> by_cases hv : verb.hasBody = true <;>
